@@ -23,7 +23,7 @@ CHECKS = {}
 CHECKS["C01"] = {
     "engine": "E1 lattice explorer",
     "jobs": lambda tier: per_dim("C01.cpp", "C01", tier),
-    "rule": "unit = (order, duration alphabet, N, duration word, scale, start time); every unit runs the full data basis (each unit waypoint / boundary component, rotated per coordinate) + generic dyadic data through all 4 construction routes; distinct = distinct axis tuples; non-trivial = N >= 2 (a linear system is solved)",
+    "rule": "unit = (order, duration alphabet, N, duration word, scale, start time); every unit runs the full data basis (each unit waypoint / boundary component, rotated per coordinate) + generic dyadic data through all 4 construction routes; distinct = distinct axis tuples; non-trivial = N >= 2 (a linear system is solved) Also: waypoints and boundary states read back through the hinted overloads with one carried hint; the first trajectory access after update() rotates through the four accessors; long splines N in {31,32,33,64,128}.",
     "bounds": {"quick": "3 orders x DIM {1,2,3,4,8} x N 1..5 x all 3^N duration words (dyadic alphabet; plus the nearly-equal alphabet {1-2^-21, 1, 1+2^-22} for N <= 4) x 3 start times x full data basis x 5 routes",
                "thorough": "3 orders x DIM 1..10 x (N 1..8 all 3^N words; N 9,10 all 2^N words) x 3 scales x 4 start times + jittered alphabet N<=6, full data basis x 4 routes"},
     "thresholds": {"interp/bc scaled residual (cubic/quintic/septic)": [1e-12, 1e-11, 1e-9], "routes": "bitwise"},
@@ -37,7 +37,7 @@ TECH_E1 = "bounded exhaustive enumeration of the input/configuration lattice exe
 CHECKS["C02"] = {
     "engine": "E1 lattice explorer",
     "jobs": lambda tier: per_dim("C02.cpp", "C02", tier),
-    "rule": "unit = (order, duration alphabet, N, duration word, scale); every unit compares the published coefficients for the full data basis + generic data with the dense long-double solve R1 and checks continuity of derivatives 0..2s-2 at every interior knot; for N<=3 (quick) / N<=4 (thorough), DIM<=2 the oracle R1 is itself cross-checked against the KKT minimiser R1'; non-trivial = N >= 2",
+    "rule": "unit = (order, duration alphabet, N, duration word, scale); every unit compares the published coefficients for the full data basis + generic data with the dense long-double solve R1 and checks continuity of derivatives 0..2s-2 at every interior knot; for N<=3 (quick) / N<=4 (thorough), DIM<=2 the oracle R1 is itself cross-checked against the KKT minimiser R1'; non-trivial = N >= 2 Also: history variant 3 (same N, start and end, reversed durations); a trajectory reference taken before update() shows the new coefficients; long splines N in {31,32,33,64}; tight thresholds on equal-duration cases.",
     "bounds": {"quick": "3 orders x DIM {1,2,3,4,8} x N 1..5 x all 3^N duration words (dyadic alphabet; plus the nearly-equal alphabet {1-2^-21, 1, 1+2^-22} for N <= 4) x full data basis",
                "thorough": "3 orders x DIM 1..10 x (N 1..8 all 3^N words; N 9,10 all 2^N words) x 3 scales + jittered alphabet N<=6, full data basis"},
     "thresholds": {"coef vs R1, scaled by the solution magnitude (cubic/quintic/septic)": [3e-9, 1e-8, 1e-6], "continuity": [1e-9, 3e-7, 1e-5], "R1' vs R1": 1e-9},
@@ -65,7 +65,7 @@ def grad_jobs(prop, tier):
 CHECKS["C05"] = {
     "engine": "E1 lattice explorer",
     "jobs": lambda tier: grad_jobs("C05", tier),
-    "rule": "unit = (order, N, duration word, scale); every unit calls propagateGrad with EVERY unit upstream vector (each coefficient entry of each coordinate, each duration) for the full data basis + generic data and compares each output with the exact Jacobian of the reference construction map (jets through the dense long-double solve); plus, per unit, all call sequences of length <= 3 over 4 upstream vectors vs a fresh object (bitwise), value vs reference overload (bitwise), linearity; non-trivial = N >= 2",
+    "rule": "unit = (order, N, duration word, scale); every unit calls propagateGrad with EVERY unit upstream vector (each coefficient entry of each coordinate, each duration) for the full data basis + generic data and compares each output with the exact Jacobian of the reference construction map (jets through the dense long-double solve); plus, per unit, all call sequences of length <= 3 over 4 upstream vectors vs a fresh object (bitwise), value vs reference overload (bitwise), linearity; non-trivial = N >= 2 Also: reference overload handed a Gradients object that last held a larger problem, and called in place (g.times input and output); long splines N in {31,32,33(,64)} against a windowed reference Jacobian; tight thresholds on equal-duration cases.",
     "bounds": {"quick": "3 orders x DIM {1,2,3,4,8} x (N 1..4 all 3^N words, N 5 all 2^N words) x full data basis x all unit upstream vectors",
                "thorough": "3 orders x DIM {1,2,3,4,5,10} x (N 1..6 all 3^N words; N 7..9 all 2^N words) x 3 scales x full data basis x all unit upstream vectors"},
     "thresholds": {"normalised Jacobian error (cubic/quintic/septic)": [1e-8, 1e-7, 1e-6], "history/overload": "bitwise", "linearity": "10 x the Jacobian threshold (rounding of the same solves)"},
@@ -76,7 +76,7 @@ CHECKS["C05"] = {
 CHECKS["C06"] = {
     "engine": "E1 lattice explorer",
     "jobs": lambda tier: grad_jobs("C06", tier),
-    "rule": "unit = (order, N, duration word, scale); every unit compares getEnergyGrad (and the individual getters, bitwise among themselves), the partial gradients (vs exact formulas on the published coefficients) and propagateGrad(partials) with d(reference energy)/d(input) obtained from the reference model only, for the data basis, basis pairs (energy is quadratic) and generic data; non-trivial = N >= 2",
+    "rule": "unit = (order, N, duration word, scale); every unit compares getEnergyGrad (and the individual getters, bitwise among themselves), the partial gradients (vs exact formulas on the published coefficients) and propagateGrad(partials) with d(reference energy)/d(input) obtained from the reference model only, for the data basis, basis pairs (energy is quadratic) and generic data; non-trivial = N >= 2 Also: propagated partials through the reference overloads in place; long splines; tight thresholds on equal-duration cases.",
     "bounds": {"quick": "3 orders x DIM {1,2,3,4,8} x (N 1..4 all 3^N words, N 5 all 2^N words) x basis + neighbouring basis pairs + generic",
                "thorough": "3 orders x DIM {1,2,3,4,5,10} x (N 1..7 all 3^N words; N 8,9 all 2^N words) x 3 scales x basis + all basis pairs + generic"},
     "thresholds": {"normalised gradient error (cubic/quintic/septic)": [1e-7, 1e-7, 1e-6], "partials vs closed form": 1e-11},
@@ -88,7 +88,7 @@ CHECKS["C06"] = {
 CHECKS["C04"] = {
     "engine": "E1 lattice explorer",
     "jobs": lambda tier: per_dim("C04.cpp", "C04", tier),
-    "rule": "(a) injected coefficients: unit = (order, 1 or 3 segments, pair of coefficient rows (j,k), one of 9 + 4 extreme durations 2^-40..2^20) -> getEnergy vs exact product integration; by bilinearity in the coefficients and polynomial identity in T (degree <= 7 < 9 points) this fixes every weight and power of the closed form; (b) public route: unit = (order, N, duration word, scale) -> getEnergy vs exact integral of the published polynomials for the data basis + generic data, non-negativity, sum over coordinates (vs D one-dimensional splines); non-trivial = the unit involves at least one coefficient row entering the energy",
+    "rule": "(a) injected coefficients: unit = (order, 1 or 3 segments, pair of coefficient rows (j,k), one of 9 + 4 extreme durations 2^-40..2^20) -> getEnergy vs exact product integration; by bilinearity in the coefficients and polynomial identity in T (degree <= 7 < 9 points) this fixes every weight and power of the closed form; (b) public route: unit = (order, N, duration word, scale) -> getEnergy vs exact integral of the published polynomials for the data basis + generic data, non-negativity, sum over coordinates (vs D one-dimensional splines); non-trivial = the unit involves at least one coefficient row entering the energy Also: long splines N in {15..17,31..33,63..65,96,128}; every third problem the long-lived object first holds the reversed durations (checked too); energy of objects that reached the problem through a history (larger queried problem, reversed durations), bitwise.",
     "bounds": {"quick": "3 orders x DIM {1,2,3,4,8}; injected: all row pairs x 13 T x {1,3} segments; public: (N 1..4 all 3^N words, N 5,6 all 2^N) x 6 scales 2^-30..2^10 x full data basis, fresh + re-fitted object",
                "thorough": "3 orders x DIM 1..10; injected as quick; public: (N 1..7 all 3^N words, N 8..10 all 2^N) x 8 scales 2^-30..2^10 x full data basis, fresh + re-fitted object"},
     "thresholds": {"relative to sum of |terms| of the exact integral": 1e-12},
@@ -100,7 +100,7 @@ CHECKS["C04"] = {
 CHECKS["C13"] = {
     "engine": "E1 lattice explorer",
     "jobs": lambda tier: per_dim("C13.cpp", "C13", tier, quick=tuple(range(1, 11)), thorough=tuple(range(1, 11))),
-    "rule": "unit = (order, N, duration word, scale); every unit builds the D-dimensional spline (generic data with a different vector per coordinate, and data confined to one coordinate) and the D one-dimensional splines of its coordinates and compares coefficients, evaluations, propagated point/boundary gradients and energy gradients coordinate by coordinate, energy / duration gradients as sums over coordinates, and repeats under every cyclic shift and one transposition of the coordinates; the same comparison on objects reached by update() (both overloads) from a fit whose coordinate 0 lies in a map frame (+2^22) while one waypoint / the boundary velocity of the last coordinate moves by 2^-22; non-trivial = D >= 2",
+    "rule": "unit = (order, N, duration word, scale); every unit builds the D-dimensional spline (generic data with a different vector per coordinate, and data confined to one coordinate) and the D one-dimensional splines of its coordinates and compares coefficients, evaluations, propagated point/boundary gradients and energy gradients coordinate by coordinate, energy / duration gradients as sums over coordinates, and repeats under every cyclic shift and one transposition of the coordinates; the same comparison on objects reached by update() (both overloads) from a fit whose coordinate 0 lies in a map frame (+2^22) while one waypoint / the boundary velocity of the last coordinate moves by 2^-22; non-trivial = D >= 2 The update route also starts from a fit whose coordinates are all zero but one.",
     "bounds": {"quick": "3 orders x D 1..10 x (N 1..5 all 3^N words, N 6 all 2^N)", "thorough": "3 orders x D 1..10 x (N 1..8 all 3^N words, N 9,10 all 2^N) x 3 scales"},
     "thresholds": {"coefficients (C02 metric)": [3e-9, 1e-8, 1e-6], "gradients": "1e3 x that (same algorithm on both sides; measured bit-identical)", "sums (relative to the energy itself)": 1e-9},
     "assumptions": ASSUME_COMMON,
@@ -122,7 +122,7 @@ CHECKS["C14"] = {
 CHECKS["C03"] = {
     "engine": "E1 lattice explorer + E2 history exploration of the hint protocol",
     "jobs": lambda tier: [job("C03.cpp", "C03")],
-    "rule": "unit = configuration (DIM in 1..3, ORDER template in {Dynamic,4,6,8,12}, coefficient count 1..12 where allowed, segments in {1,2,3,31,32,33,40}, breakpoint variant incl. one repeated breakpoint); every unit sweeps t over {every breakpoint, one ulp either side, midpoints, far outside} x k = 0..count+1 and compares the plain route with the exact-polynomial oracle on the piece chosen by the half-open rule, and every other route (hinted from EVERY hint value in {INT_MIN,-5,-1,0..n-1,n,n+7,INT_MAX}, batch, []/at()/iterator + local time, Deriv enum, derivative(j).evaluate(t,k-j) for every j<=k) bitwise with the plain route; hint must equal the piece index afterwards; the only state between hinted calls is the caller's int, so the single-step sweep over all hint values is the complete transition relation (argument S); confirmed directly by all hinted call sequences of length <=3 (n=3) / <=2 quick, <=3 thorough (n=33); non-trivial = coefficient count >= 2",
+    "rule": "unit = configuration (DIM in 1..3, ORDER template in {Dynamic,4,6,8,12}, coefficient count 1..12 where allowed, segments in {1,2,3,31,32,33,40}, breakpoint variant incl. one repeated breakpoint); every unit sweeps t over {every breakpoint, one ulp either side, midpoints, far outside} x k = 0..count+1 and compares the plain route with the exact-polynomial oracle on the piece chosen by the half-open rule, and every other route (hinted from EVERY hint value in {INT_MIN,-5,-1,0..n-1,n,n+7,INT_MAX}, batch, []/at()/iterator + local time, Deriv enum, derivative(j).evaluate(t,k-j) for every j<=k) bitwise with the plain route; hint must equal the piece index afterwards; the only state between hinted calls is the caller's int, so the single-step sweep over all hint values is the complete transition relation (argument S); confirmed directly by all hinted call sequences of length <=3 (n=3) / <=2 quick, <=3 thorough (n=33); non-trivial = coefficient count >= 2 Also: derivative() call sequences that return the same coefficient count from different orders (chains, repeats) compared bitwise with earlier results; post-increment / decrement iterators.",
     "bounds": {"quick": "1428 configurations; hint histories: 12^3 (n=3), 138^2 (n=33)", "thorough": "1836 configurations (segments also 64 and 100); hint histories: 12^3 (n=3), 138^3 (n=33)"},
     "thresholds": {"plain value vs exact oracle": "8*count ulp of sum|terms| + |p'| 2 ulp(t)", "between routes": "bitwise"},
     "assumptions": ASSUME_COMMON,
@@ -135,7 +135,7 @@ TECH_E2 = "explicit-state breadth-first search over operation histories on the r
 CHECKS["C11"] = {
     "engine": "E2 history explorer",
     "jobs": lambda tier: [job("C11.cpp", "C11_w%d" % w, ["-DVWORLD=%d" % w], shards=1) for w in range(6)],
-    "rule": "state = operation history over {update with 6 data sets (same shape / other segment count / other coefficient count / two invalid), evaluate at orders 0/1/top/beyond, hinted evaluate, derivative trajectory, copy-assign, copy-construct, self-assign, swap roles, ...} for PPolyND<2,Dynamic>, PPolyND<2,8>, PPolyND<1,12>, and {update via both overloads with 4 problems, evaluate trajectory, getTrajectoryCopy, copy-assign/construct spline, update copy, propagateGrad, ...} for the three spline classes; after EVERY transition every live object must evaluate (all orders, probe grid, plain + hinted) bit-identically to a fresh object built from its own latest data; distinct = distinct canonical keys (entire private state incl. lazy caches and ready flags); non-trivial = histories of length >= 2",
+    "rule": "state = operation history over {update with 6 data sets (same shape / other segment count / other coefficient count / two invalid), evaluate at orders 0/1/top/beyond, hinted evaluate, derivative trajectory, copy-assign, copy-construct, self-assign, swap roles, ...} for PPolyND<2,Dynamic>, PPolyND<2,8>, PPolyND<1,12>, and {update via both overloads with 4 problems, evaluate trajectory, getTrajectoryCopy, copy-assign/construct spline, update copy, propagateGrad, ...} for the three spline classes; after EVERY transition every live object must evaluate (all orders, probe grid, plain + hinted) bit-identically to a fresh object built from its own latest data; distinct = distinct canonical keys (entire private state incl. lazy caches and ready flags); non-trivial = histories of length >= 2 PPolyND worlds: self-aliased updates (the object's own breakpoints / coefficients handed back with the other argument from another data set), a fixed absolute probe time for the history's evaluate operations (checked first); spline worlds: a trajectory reference taken once before all updates is observed first.",
     "bounds": {"quick": "PPolyND worlds: BFS to depth 8 or fixpoint; spline worlds: BFS to depth 6 (all histories of length <= 3 without de-duplication)", "thorough": "6 worlds, BFS to depth 20 or fixpoint"},
     "thresholds": {"all comparisons": "bitwise"},
     "assumptions": ASSUME_COMMON + ["canonical key reads private members through -fno-access-control"],
@@ -155,7 +155,7 @@ def c10_jobs(tier):
 CHECKS["C10"] = {
     "engine": "E2 history explorer",
     "jobs": c10_jobs,
-    "rule": "state = history over {update by durations / by time points with 5 problems (N = 1, 2, 3, 5 whose durations are bit-identical prefixes of one another, and N = 3' with other durations), getEnergy, getEnergyGrad, partial gradients, propagateGrad(unit / dense), evaluate grid} and hinted evaluations that keep the caller-held hint across updates (inside the first segment / every knot ascending / end time) on one spline object; after EVERY transition ALL observables (evaluations of the long-lived object go through the hinted overload starting from the current hint; the fresh object is queried un-hinted) (coefficients, knot times, energy, energy gradients, partials, propagateGrad for two upstream vectors, evaluations at all orders) are compared bitwise with a freshly constructed spline given only the latest inputs; canonical key = every private member incl. factor caches and workspaces; optimizer workspaces: one Workspace shared by evaluations of four optimizers (A: N=2 / B: N=4 / C: N=2 with other data, flags, start time and energy weight / D: identical to A except for the FIXED boundary accelerations/jerk, evaluated at A's bit-identical decision vectors) x 2 decision vectors x {2-cost, 3-cost overload}: after EVERY history every possible next call on the reused workspace equals the same call on a fresh workspace (cost, gradient, workspace spline; bitwise); non-trivial = histories of length >= 2",
+    "rule": "state = history over {update by durations / by time points with 5 problems (N = 1, 2, 3, 5 whose durations are bit-identical prefixes of one another, and N = 3' with other durations), getEnergy, getEnergyGrad, partial gradients, propagateGrad(unit / dense), evaluate grid} and hinted evaluations that keep the caller-held hint across updates (inside the first segment / every knot ascending / end time) on one spline object; after EVERY transition ALL observables (evaluations of the long-lived object go through the hinted overload starting from the current hint; the fresh object is queried un-hinted) (coefficients, knot times, energy, energy gradients, partials, propagateGrad for two upstream vectors, evaluations at all orders) are compared bitwise with a freshly constructed spline given only the latest inputs; canonical key = every private member incl. factor caches and workspaces; optimizer workspaces: one Workspace shared by evaluations of four optimizers (A: N=2 / B: N=4 / C: N=2 with other data, flags, start time and energy weight / D: identical to A except for the FIXED boundary accelerations/jerk, evaluated at A's bit-identical decision vectors) x 2 decision vectors x {2-cost, 3-cost overload}: after EVERY history every possible next call on the reused workspace equals the same call on a fresh workspace (cost, gradient, workspace spline; bitwise); non-trivial = histories of length >= 2 The long-lived spline is observed through the hinted overloads from the caller-held hint and through the REFERENCE-OUTPUT overloads handed used caller objects (exactly fitting dirty buffer, buffer of a larger problem, Gradients filled for N + 2); a sixth problem has the N = 3 problem's end knots and other inner knots.",
     "bounds": {"quick": "splines: 3 orders x DIM {1,3,4}: BFS to depth 6 or fixpoint; workspaces: 3 orders, BFS to depth 4; optimizer objects (setter/query/re-initialisation histories, fresh-object oracle): 3 orders, BFS to depth 5", "thorough": "splines: BFS to depth 10 or fixpoint; workspaces: 3 orders, BFS to depth 5 or fixpoint; optimizer objects: BFS to depth 8 or fixpoint"},
     "thresholds": {"all comparisons": "bitwise"},
     "assumptions": ASSUME_COMMON + ["canonical key reads private members through -fno-access-control"],
@@ -166,7 +166,7 @@ CHECKS["C10"] = {
 CHECKS["C20"] = {
     "engine": "E1 lattice explorer",
     "jobs": lambda tier: [job("C20.cpp", "C20")],
-    "rule": "states = distinct (start, end, dt) triples + trajectories + factory calls; (1) unit = (start in {0,0.3,-1.5,100,5000,-7000}, length in {0,2^-20,0.5,1,2.5,10}, residue class of k): every dt = length/k for k = 1..1024 (quick) / 16384 (thorough), each also x(1+-2^-40) and x(1+-1e-7), plus, for k <= 512, dt = (length - rem)/k for rem in {5e-7,2e-6,2e-5,2e-4,2e-3} (k steps falling short by a chosen remainder), plus dt in {1.5 length, 1e-3, 0.01, 0.1, 0.3}: first sample = start exactly, sample i = start + i dt, strictly increasing, none beyond end+1e-6, last within 1e-6 of end, end appended iff short by > 1e-6, final step <= dt; (2) unit = cubic/quintic/septic trajectory (DIM 1 and 3, N in {1,2,3,5}, duration words): batch = pointwise (bitwise), getTrajectoryLength (3 overloads; full range, sub-range, zero length; 4 steps) = left Riemann sum of speed and within dt*int|a| of the Gauss-Legendre arc length; (2b) PPolyND polylines whose speed jumps at every breakpoint, samples landing exactly on breakpoints: length = left Riemann sum with right-continuous speed; (3) unit = factory call zero()/constant() on 6 breakpoint vectors x coefficient count 1..12: initialised on the breakpoints, all derivatives at all probe times exactly 0 / (v,0,0,...); non-trivial = non-degenerate interval / valid breakpoints",
+    "rule": "states = distinct (start, end, dt) triples + trajectories + factory calls; (1) unit = (start in {0,0.3,-1.5,100,5000,-7000}, length in {0,2^-20,0.5,1,2.5,10}, residue class of k): every dt = length/k for k = 1..1024 (quick) / 16384 (thorough), each also x(1+-2^-40) and x(1+-1e-7), plus, for k <= 512, dt = (length - rem)/k for rem in {5e-7,2e-6,2e-5,2e-4,2e-3} (k steps falling short by a chosen remainder), plus dt in {1.5 length, 1e-3, 0.01, 0.1, 0.3}: first sample = start exactly, sample i = start + i dt, strictly increasing, none beyond end+1e-6, last within 1e-6 of end, end appended iff short by > 1e-6, final step <= dt; (2) unit = cubic/quintic/septic trajectory (DIM 1 and 3, N in {1,2,3,5}, duration words): batch = pointwise (bitwise), getTrajectoryLength (3 overloads; full range, sub-range, zero length; 4 steps) = left Riemann sum of speed and within dt*int|a| of the Gauss-Legendre arc length; (2b) PPolyND polylines whose speed jumps at every breakpoint, samples landing exactly on breakpoints: length = left Riemann sum with right-continuous speed; (3) unit = factory call zero()/constant() on 6 breakpoint vectors x coefficient count 1..12: initialised on the breakpoints, all derivatives at all probe times exactly 0 / (v,0,0,...); non-trivial = non-degenerate interval / valid breakpoints Also: steps of 5e-7, 2^-20, 1e-6, 2e-6 on short windows.",
     "bounds": {"quick": "384 sequence units (about 123k sequences), 9 duration words per (order, DIM, N), 4 factory instantiations", "thorough": "384 sequence units (about 1.97M sequences), all 3^N duration words for N in {1,2,3,5}, 4 factory instantiations"},
     "thresholds": {"sequence contract": "exact / 1e-6 as stated by the property (borderline band 1e-12 excluded)", "length vs Riemann sum": 1e-12, "length vs true arc length": "dt * integral of |a| + 1e-9 relative"},
     "assumptions": ASSUME_COMMON + ["16-point Gauss-Legendre on 8 sub-intervals per piece as the true arc length"],
@@ -177,7 +177,7 @@ CHECKS["C20"] = {
 CHECKS["C17"] = {
     "engine": "E1 lattice explorer",
     "jobs": lambda tier: [job("C17.cpp", "C17")],
-    "rule": "states = distinct floating-point inputs; unit = one exponent of the mantissa/exponent lattice (tau = +-m 2^e, T = m 2^e, 16 four-bit mantissas, e in [-60,19], capped at 1e6) or one exponent of the approach lattices c +- m 2^e, e in [-52,-1], towards each critical point c, or one block of 8192 CONSECUTIVE doubles around a critical point (tau around 0 incl. denormals and both signs, +-1, +-1e6; T around 1, 1e-6, 1e6); at every point: toTime > 0 and equal to the closed form (1e-14), toTime(tau) <= toTime(next double), toTime(tau + 16 ulp) > toTime(tau), backward = g T'(tau) (1e-14), linear in g and exactly homogeneous for g = +-2^k, k in [-900, 900], toTau(toTime tau) = tau and toTime(toTau T) = T (1e-12), toTau monotone; one-sided derivatives and difference quotients at the switch; identity map bitwise; the maps as the optimizer uses them: for ALL words of length <= 3 over the durations {1 ms, 1 ms (1+2^-31), 1-2^-32, 1, 1+2^-31, 3600 s} the time block of generateInitialGuess() is toTau(T_i) and evaluate() decodes x_i to toTime(x_i), entry by entry (bitwise); non-trivial = every unit",
+    "rule": "states = distinct floating-point inputs; unit = one exponent of the mantissa/exponent lattice (tau = +-m 2^e, T = m 2^e, 16 four-bit mantissas, e in [-60,19], capped at 1e6) or one exponent of the approach lattices c +- m 2^e, e in [-52,-1], towards each critical point c, or one block of 8192 CONSECUTIVE doubles around a critical point (tau around 0 incl. denormals and both signs, +-1, +-1e6; T around 1, 1e-6, 1e6); at every point: toTime > 0 and equal to the closed form (1e-14), toTime(tau) <= toTime(next double), toTime(tau + 16 ulp) > toTime(tau), backward = g T'(tau) (1e-14), linear in g and exactly homogeneous for g = +-2^k, k in [-900, 900], toTau(toTime tau) = tau and toTime(toTau T) = T (1e-12), toTau monotone; one-sided derivatives and difference quotients at the switch; identity map bitwise; the maps as the optimizer uses them: for ALL words of length <= 3 over the durations {1 ms, 1 ms (1+2^-31), 1-2^-32, 1, 1+2^-31, 3600 s} the time block of generateInitialGuess() is toTau(T_i) and evaluate() decodes x_i to toTime(x_i), entry by entry (bitwise); non-trivial = every unit Part (5) also: decode at the initial guess, below it (durations under 1 ms) and after a warm start is toTime(x_i) bitwise; with an energy weight the time entries of the gradient are backward(x_i, T_i, dCost/dT_i) of the workspace's complete duration gradient (bitwise); an optimizer assigned after other use hands out toTau of the new durations.",
     "bounds": {"quick": "2560 lattice points (4-bit mantissas) + approach lattices + 2^17 consecutive doubles around each of 8 critical points", "thorough": "40960 lattice points (8-bit mantissas) + approach lattices + 2^21 consecutive doubles around each of 8 critical points"},
     "thresholds": {"closed form / backward": 1e-14, "round trips": 1e-12, "monotone": "exact between adjacent doubles; strict at 16 ulp"},
     "assumptions": ASSUME_COMMON,
@@ -198,7 +198,7 @@ ASSUME_OPT = ASSUME_COMMON + ["user functors follow the documented protocol (exp
 CHECKS["C07"] = {
     "engine": "E1 lattice explorer",
     "jobs": lambda tier: opt_jobs("C07", tier),
-    "rule": "unit = optimizer configuration (order, DIM, N, 8 flag bits, time map, spatial map, energy weight, integration steps K, running-cost functor from the generating set {p^2,v^2,a^2,j^2,s^2,p.v,g(t_global),segment weight,ALL x t_g^2,ALL x (1+sin t_g/4),zero}, start time, time/waypoint cost form); every unit evaluates at the initial guess and at a perturbed decision vector and compares EVERY gradient component with 4th-order Richardson central differences of the value returned by evaluate itself (two step sizes; their difference is the error bar), and the built-in workspace with an explicit one (bitwise); non-trivial = at least one flag set or N >= 2",
+    "rule": "unit = optimizer configuration (order, DIM, N, 8 flag bits, time map, spatial map, energy weight, integration steps K, running-cost functor from the generating set {p^2,v^2,a^2,j^2,s^2,p.v,g(t_global),segment weight,ALL x t_g^2,ALL x (1+sin t_g/4),zero}, start time, time/waypoint cost form); every unit evaluates at the initial guess and at a perturbed decision vector and compares EVERY gradient component with 4th-order Richardson central differences of the value returned by evaluate itself (two step sizes; their difference is the error bar), and the built-in workspace with an explicit one (bitwise); non-trivial = at least one flag set or N >= 2 Also: an optimizer assigned from this one after serving another problem, and descending / even-odd user executors on a workspace that last served another vector, return the same cost and gradient bitwise; long problems N in {8,16,17,32,33}; every K = 1..70.",
     "bounds": {"quick": "DIM 1..4 x 3 orders: all 256 flag masks x N 1..3 (DIM<=2) + per-axis sweeps (12 map pairs; 11 functors x 2 rho x 4 K; start times x cost forms) for 4 masks x N 1..5",
                "thorough": "as quick with N up to 6, K up to 64, all 256 masks x N 1..4 for every DIM, plus the full product 256 masks x 12 map pairs x 3 functors x 2 rho x 2 K for N 1..3, DIM <= 3"},
     "thresholds": {"|analytic - FD| <= max(10 x Richardson error bar, 1e-6 x largest gradient entry)": "observed 1e-9 of the largest entry"},
@@ -209,7 +209,7 @@ CHECKS["C07"] = {
 CHECKS["C08"] = {
     "engine": "E1 lattice explorer",
     "jobs": lambda tier: opt_jobs("C08", tier),
-    "rule": "unit = optimizer configuration as in C07; a recording running-cost functor stores every sample: exactly (K+1)N samples, segment index, local time k T_i/K, global time = start + elapsed + t, p/v/a/j/s = derivatives 0..4 of the workspace spline's published piece (exact polynomial calculus); returned cost = time + waypoint + trapezoid(recorded samples) + rho x getEnergy (1e-12) and = the reference model's cost from the decoded inputs through the dense long-double spline solve; decode of x checked against the layout model; two-cost overload = three-cost overload with a zero waypoint cost; getOptimalSpline after a built-in-workspace evaluation; basis rows of computeBasisFunctions vs falling factorials at 9 t values",
+    "rule": "unit = optimizer configuration as in C07; a recording running-cost functor stores every sample: exactly (K+1)N samples, segment index, local time k T_i/K, global time = start + elapsed + t, p/v/a/j/s = derivatives 0..4 of the workspace spline's published piece (exact polynomial calculus); returned cost = time + waypoint + trapezoid(recorded samples) + rho x getEnergy (1e-12) and = the reference model's cost from the decoded inputs through the dense long-double spline solve; decode of x checked against the layout model; two-cost overload = three-cost overload with a zero waypoint cost; getOptimalSpline after a built-in-workspace evaluation; basis rows of computeBasisFunctions vs falling factorials at 9 t values Also: descending / even-odd user executors give the same cost, gradient and (segment, t, t_global) samples bitwise; a second evaluation on the same workspace after changing only a boundary-derivative entry of x; long problems; every K = 1..70.",
     "bounds": {"quick": "same configuration set as C07 quick", "thorough": "same configuration set as C07 thorough"},
     "thresholds": {"sample state": 1e-11, "cost decomposition": 1e-12, "cost vs reference model (cubic/quintic/septic)": [1e-8, 1e-7, 1e-6]},
     "assumptions": ASSUME_OPT,
@@ -229,7 +229,7 @@ CHECKS["C09"] = {
 CHECKS["C19"] = {
     "engine": "E1 lattice explorer",
     "jobs": lambda tier: opt_jobs("C19", tier, (1, 2), (1, 2, 3)),
-    "rule": "(also: a second self-check at another vector on the same explicit/built-in workspace equals the report of a fresh workspace, bitwise; every influential component delivered as NaN and +Inf must give failure) unit = (order, DIM, N in 1..3, flag mask, spatial map, both overloads inside); on problems whose finite-difference noise floor is < tol/100: correct functors -> valid, analytical = evaluate's gradient (bitwise), numerical = harness-recomputed central difference on fresh workspaces (bitwise), error_norm / rel_error per definition, workspace spline afterwards = spline of x (bitwise), explicit and built-in workspace, non-default eps/tol; then for EVERY single output component of the time-cost gradient (N), waypoint-cost gradient ((N+1) DIM) and running-cost gradients (gp,gv,ga,gj,gs per component, gt) a functor with that component off by 4: if the induced analytic-gradient error is >= 10 tol the verdict must be false, if it is exactly 0 the verdict must stay true",
+    "rule": "(also: a second self-check at another vector on the same explicit/built-in workspace equals the report of a fresh workspace, bitwise; every influential component delivered as NaN and +Inf must give failure) unit = (order, DIM, N in 1..3, flag mask, spatial map, both overloads inside); on problems whose finite-difference noise floor is < tol/100: correct functors -> valid, analytical = evaluate's gradient (bitwise), numerical = harness-recomputed central difference on fresh workspaces (bitwise), error_norm / rel_error per definition, workspace spline afterwards = spline of x (bitwise), explicit and built-in workspace, non-default eps/tol; then for EVERY single output component of the time-cost gradient (N), waypoint-cost gradient ((N+1) DIM) and running-cost gradients (gp,gv,ga,gj,gs per component, gt) a functor with that component off by 4: if the induced analytic-gradient error is >= 10 tol the verdict must be false, if it is exactly 0 the verdict must stay true Also: a failing report is complete (analytical = evaluate's gradient, numerical = the central differences of the correct functor bitwise, norms by definition); a cost quadratic in x with a reference duration of exactly 1 ms is judged valid without any noise model; makeReport() agrees with the verdict.",
     "bounds": {"quick": "3 orders x DIM 1..2 x N 1..3 x 16 flag masks x {Identity, Proj}", "thorough": "3 orders x DIM 1..3 x N 1..3 x 256 flag masks x {Identity, Proj}"},
     "thresholds": {"tol": 1e-4, "eps": 1e-6},
     "assumptions": ASSUME_OPT + ["verdicts are only asserted where the finite-difference noise floor is far below tol"],
@@ -244,7 +244,7 @@ CHECKS["C12"] = {
                           job("C12.cpp", "C12_tsan", ["-DVMODE=1"], cxx="clang++", flags=["-fsanitize=thread"], link=["-lpthread"], shards=4,
                               env={"TSAN_OPTIONS": "halt_on_error=1 exitcode=66 report_signal_unsafe=0"}),
                           job("C12.cpp", "C12_omp", ["-DVMODE=2"], flags=["-fopenmp"], link=["-lpthread"], shards=2)],
-    "rule": "(a) unit = (order, N, K): ALL N! executor orders vs SerialExecutor, bitwise; (b) unit = assignment of the N segments to worker threads: the workers run under the cooperative scheduler with scheduling points before each segment and inside each running-cost call, ALL interleavings with <= 2 preemptions, bitwise equal to serial; (c) unit = (cold|warm optimizer, flags none|all, user|default maps): 2 (quick) / 3 (thorough) threads each call evaluate(x_j, grad_j, ..., own workspace) on one optimizer, scheduling points at every call-out into the time/spatial map and at every (interposed) pthread mutex lock/unlock, ALL schedules with <= 2 (quick) / <= 3 (thorough) preemptions, each thread's (cost, gradient) bitwise equal to the same call made serially, no deadlock, no crash; (d) the same thread bodies free-running under ThreadSanitizer (a monitor, not an enumeration); (e) built with -fopenmp: the library's own OpenMPExecutor with 1..4 threads vs SerialExecutor for N = 1..8, and 3 concurrent evaluate() calls issued by the threads of one OpenMP parallel region or by std::threads, with OpenMPExecutor (nested) or SerialExecutor, cold and warm, repeated (a monitor as well); distinct = distinct interleaving traces; non-trivial = every E3 unit",
+    "rule": "(a) unit = (order, N, K): ALL N! executor orders vs SerialExecutor, bitwise; (b) unit = assignment of the N segments to worker threads: the workers run under the cooperative scheduler with scheduling points before each segment and inside each running-cost call, ALL interleavings with <= 2 preemptions, bitwise equal to serial; (c) unit = (cold|warm optimizer, flags none|all, user|default maps): 2 (quick) / 3 (thorough) threads each call evaluate(x_j, grad_j, ..., own workspace) on one optimizer, scheduling points at every call-out into the time/spatial map and at every (interposed) pthread mutex lock/unlock, ALL schedules with <= 2 (quick) / <= 3 (thorough) preemptions, each thread's (cost, gradient) bitwise equal to the same call made serially, no deadlock, no crash; (d) the same thread bodies free-running under ThreadSanitizer (a monitor, not an enumeration); (e) built with -fopenmp: the library's own OpenMPExecutor with 1..4 threads vs SerialExecutor for N = 1..8, and 3 concurrent evaluate() calls issued by the threads of one OpenMP parallel region or by std::threads, with OpenMPExecutor (nested) or SerialExecutor, cold and warm, repeated (a monitor as well); distinct = distinct interleaving traces; non-trivial = every E3 unit (d) also: a pool of worker threads that exist before evaluate(), at ordinary and subnormal cost scale, bitwise vs serial; (g) three threads each construct / re-fit / fully query their OWN splines (every public query), bitwise vs the same program alone. (a) also: for every choice of one segment whose running cost is +inf, all executor orders equal the serial result bitwise.",
     "bounds": {"quick": "(a) N <= 5; (b) quintic, N in {2,3}, 2 workers, bound 2; (c) quintic, 2 threads, N=3, bound 2; (d) 20 repetitions x 3 orders", "thorough": "(a) N <= 7; (b) 3 orders, N in {2,3,4}, 3 workers, bound 2; (c) 3 orders, 3 threads, bound 3; (d) 60 repetitions"},
     "thresholds": {"all comparisons": "bitwise"},
     "assumptions": ASSUME_OPT + ["scheduling points are the library's call-outs into harness types and pthread mutex operations; a race between plain loads/stores with no call-out in between is visible only to the ThreadSanitizer pass", "sequentially consistent interleavings only (no weak-memory reorderings)", "OpenMPExecutor is not run under the scheduler (its threads belong to the OpenMP runtime): it is exercised free-running in part (e); the per-segment lambda it executes is explored under the scheduler in part (b)"],
